@@ -406,3 +406,55 @@ for _op in CMPS:
                     "expr": ty.TObj("BinaryOp", only=("BinaryOp",), ftypes=(("op", ty.TConcrete(_op)), ("left", _lt), ("right", _rt)))},
             ensures=[("a returned (name, op, k) means the comparison: name is the identifier operand and  name op k  <=>  left CMP right", _esc_post(_op))],
             properties=("C05",), min_obligations=1, no_replay=True, note=f"{_tag} with CMP = {_op}"))
+
+
+# =================================================================================================
+# MemoryBuilder._setup_latch_feedback: a latch remembers through ONE wire from its own output back to its own input, on
+# GREEN (the rows of the latch read the fed-back state on green and the set / reset inputs on red: contracts above), carrying
+# the cell's signal; the loop is registered in the signal graph under an internal id and the module is marked connected.
+# Without a latch combinator nothing is added.
+# =================================================================================================
+FB = {}
+
+
+def _fb_wire(ex, a):
+    FB.setdefault("wires", []).append(a.connection)
+    return None
+
+
+def _fb_graph(kind):
+    def eff(ex, a):
+        FB.setdefault(kind, []).append(tuple(a.args))
+        return None
+    return eff
+
+
+def _fb_post(a, res):
+    m = a.module
+    wires = FB.get("wires", [])
+    if m.latch_combinator is None:
+        return not wires and not FB.get("src") and not FB.get("sink")
+    if len(wires) != 1 or len(FB.get("src", [])) != 1 or len(FB.get("sink", [])) != 1:
+        return False
+    w, lid = wires[0], m.latch_combinator.ir_node_id
+    return And(w.source_entity_id is lid, w.sink_entity_id is lid, w.wire_color == "green", w.source_side == "output", w.sink_side == "input",
+               w.signal_name is m.signal_type, FB["src"][0][1] is lid, FB["sink"][0][1] is lid, FB["src"][0][0] is FB["sink"][0][0],
+               m._feedback_connected is True)
+
+
+setup_latch_feedback = Contract(
+    qualname=MB + "_setup_latch_feedback",
+    params={"self": ty.TObj("MemoryBuilder", only=("MemoryBuilder",)),
+            "module": ty.TObj("MemoryModule", only=("MemoryModule",), ftypes=(("latch_combinator", ty.TOpt(ty.TObj("EntityPlacement", only=("EntityPlacement",), ftypes=(("ir_node_id", ty.Str),)))),
+                                                                               ("memory_id", ty.Str), ("signal_type", ty.Str), ("memory_type", ty.Str))),
+            "signal_graph": ty.TOpaque("graph")},
+    requires=[("(reset capture)", lambda a: FB.clear() or True)],
+    ensures=[("exactly one green output->input wire from the latch to itself on the cell's signal; loop registered; nothing without a latch", _fb_post)],
+    uses={"opaque.set_source": Contract(qualname="dsl_compiler/src/layout/signal_graph.py::SignalGraph.set_source", params={"args": _OPQ}, effect=_fb_graph("src"), verify=False, note="records the source"),
+          "opaque.add_sink": Contract(qualname="dsl_compiler/src/layout/signal_graph.py::SignalGraph.add_sink", params={"args": _OPQ}, effect=_fb_graph("sink"), verify=False, note="records the sink"),
+          "opaque.add_wire_connection": Contract(qualname="dsl_compiler/src/layout/layout_plan.py::LayoutPlan.add_wire_connection", params={"self": _OPQ, "connection": _OPQ},
+                                                 effect=lambda ex, a: _fb_wire(ex, type("NS", (), {"connection": a.args[0]})()), verify=False, note="records the explicit wire"),
+          "opaque.info": "skip"},
+    dynamic_types={"self": {"layout_plan": ty.TOpaque("plan"), "diagnostics": ty.TOpaque("diag")}},
+    properties=("C05", "C08"), min_obligations=2, no_replay=True)
+CONTRACTS.append(setup_latch_feedback)
